@@ -9,7 +9,7 @@ import Tahoe.Http.DrvText
                                             ok:<name>=<hex>,… (insertion order) | err:<kind> | undecodable
   auth <swissnum hex> <hex> …             → ok | wrong | badunicode
   route <METHOD> </path>                  → <route>:<si>:<shnum>:<required names> | noroute
-  hist <swissnum hex> <request> …         → per request `<status>:<body>:<changed 0/1>`, then `||` and the final state
+  hist <swissnum hex> <request|@node:…|@migrate:…> … → per request `<status>:<body>:<changed 0/1>`, then `||` and the final state
 -/
 open Tahoe.Drv Tahoe.Http Tahoe.Http.Text
 
@@ -24,10 +24,22 @@ def errName : SecretsError → String
 def parseRequired (s : String) : Option (List Secret) :=
   if s == "-" then some [] else (s.splitOn ",").mapM Secret.ofName
 
+/-- control tokens between requests: `@node:<nodeid>` (the serving node's id) and `@migrate:<swissnum>:<nodeid>` (the
+share directory is now served by a node with this swissnum and nodeid); both print `ctl` -/
+def controlTok (sw : Tahoe.Http.Bytes) (st : State) (tok : String) : Option (Tahoe.Http.Bytes × State) :=
+  match tok.splitOn ":" with
+  | ["@node", n] => do pure (sw, { st with myNodeid := ← bytesOfHex n })
+  | ["@migrate", s, n] => do pure (← bytesOfHex s, migrate st (← bytesOfHex n))
+  | _ => none
+
 def runHist (sw : Tahoe.Http.Bytes) (st : State) (acc : List String) : List String → Option (List String × State)
   | [] => some (acc.reverse, st)
   | tok :: rest =>
-    match parseRequest tok with
+    if tok.startsWith "@" then
+      match controlTok sw st tok with
+      | none => none
+      | some (sw', st') => runHist sw' st' ("ctl" :: acc) rest
+    else match parseRequest tok with
     | none => none
     | some rq =>
       let r := step sw st rq
